@@ -201,7 +201,11 @@ OnRet(m, e) ==
                                          V(m, e, IF m.prog.dir = "flow" THEN "C02" ELSE "C10",
                                            "nil returned although not every function was invoked exactly once")})
                  \cup (IF \E t \in Tasks(m.prog) : t.pred # 0 /\ St(m, t.pred) = "true" /\ m.cnt[<<t.id, -1>>] = 0
-                       THEN {V(m, e, "C11", "the predicate returned true but its task was never invoked")} ELSE {})
+                       THEN {V(m, e, "C11", "the predicate returned true but its task was never invoked"),
+                             \* the only way the generated code can get there: the task's job read the predicate's
+                             \* result before the predicate's job had finished
+                             V(m, e, "C01", "a task's job ran before the predicate job it depends on had finished (predicate true, flow returned nil, task never invoked)")}
+                       ELSE {})
                  \cup (IF m.prog.dir = "flow" /\ okAll /\ e.toks # ExpectedResults(m)
                        THEN {V(m, e, IF \E t \in Tasks(m.prog) : t.pred # 0 \/ t.fb THEN "C11" ELSE "C02",
                                "Results do not hold the values their providers returned")} ELSE {})
